@@ -4,6 +4,8 @@ CONSTANTS
   Design = "filepos"
   ReadRule = "written"
   UnsetSpace <- AllUnset
+  ScalarRule = "fill_is_unset"
+  DfltSpace <- AllDflt
   LayoutSpace <- Layouts
   D = 100
 CONSTRAINT EmitRead
